@@ -59,7 +59,7 @@ func vetFreeOrder(def *propDef, c *cat.Catalog, opt cat.Opts, ops []*run.Entry) 
 	cfg := "SPECIFICATION TraceSpec\nCONSTANTS\n  MaxInv = 1000000\n  MaxFaults = 1000000\n  FaultKinds = {\"err\", \"panic\"}\n  FreeOrder = TRUE\nCHECK_DEADLOCK FALSE\n"
 	os.WriteFile(filepath.Join(dir, "MCVet.cfg"), []byte(cfg), 0o644)
 	accepted := false
-	preds := map[int]*tracePrediction{}
+	preds := map[int][]*tracePrediction{}
 	st, terr := runTLC(dir, "MCVet", 1, 5*time.Minute, nil, func(s string) {
 		var m map[string]interface{}
 		if json.Unmarshal([]byte(s), &m) == nil {
@@ -71,8 +71,12 @@ func vetFreeOrder(def *propDef, c *cat.Catalog, opt cat.Opts, ops []*run.Entry) 
 		var p tracePrediction
 		if json.Unmarshal([]byte(s), &p) == nil && p.L > 0 && p.Strict.V && p.Strict.Root && p.Strict.MK && p.Strict.Log {
 			// a completed call that agrees with the recording: with the same executions in the
-			// same order every branch reaches the same state
-			preds[p.L] = &p
+			// same order every branch reaches the same container state; what may still differ
+			// between branches is the failure path (which of several doomed dependencies was
+			// tried first), so every such prediction is kept as a candidate
+			if len(preds[p.L]) < 64 {
+				preds[p.L] = append(preds[p.L], &p)
+			}
 		}
 	})
 	if terr != nil {
@@ -91,18 +95,26 @@ func vetFreeOrder(def *propDef, c *cat.Catalog, opt cat.Opts, ops []*run.Entry) 
 		if obs == nil {
 			continue
 		}
-		p := preds[l]
-		if p == nil {
-			return false, nil
-		}
-		want := *p.Entry
-		want.Snap = p.Snap
-		want.Viz = p.Viz
-		want.VizErp = p.VizErr
-		for _, d := range run.CompareEntry(cc, opt.Dry, op, &want, obs) {
-			if d.Kind != "exec.order" && (def == nil || def.claims(d.Kind, d.Detail)) {
-				return false, nil
+		explained := false
+		for _, p := range preds[l] {
+			want := *p.Entry
+			want.Snap = p.Snap
+			want.Viz = p.Viz
+			want.VizErp = p.VizErr
+			clean := true
+			for _, d := range run.CompareEntry(cc, opt.Dry, op, &want, obs) {
+				if d.Kind != "exec.order" && (def == nil || def.claims(d.Kind, d.Detail)) {
+					clean = false
+					break
+				}
 			}
+			if clean {
+				explained = true
+				break
+			}
+		}
+		if !explained {
+			return false, nil
 		}
 		op++
 	}
